@@ -358,6 +358,21 @@ class Observer:
                     self._v("message-bindings", dict(base, what="the message lists bindings that only a parameter AFTER the blamed one could "
                                                                 "have made (they were never in force)", blamed=blamed, phantom=phantom,
                                                      message_lists=[got_ax, got_pt]), kind="history-phantom")
+                # ... nor from the blamed parameter itself when its annotation is ONE jaxtyping check (an array or a PyTree): that check
+                # failed, and a failed check binds nothing -- so a name that no EARLIER parameter mentions cannot be listed
+                bi = names.index(blamed)
+                bspec = scn["anns"].get(f["params"][bi][1]) if f["params"][bi][1] else None
+                if bspec is not None and bspec["k"] in ("arr", "tree"):
+                    earlier = set()
+                    for n_, a_ in f["params"][:bi]:
+                        earlier |= ann_names(a_)
+                    own = sorted(listed & (ann_names(f["params"][bi][1]) - earlier))
+                    self.stats.inc("blamed_parameter_own_names_judged")
+                    if own:
+                        self._v("message-bindings", dict(base, what="the message lists a binding that only the blamed parameter's own "
+                                                                    "(failed, hence rolled-back) check could have made",
+                                                         blamed=blamed, phantom=own, message_lists=[got_ax, got_pt]),
+                                kind="history-phantom-own")
         if stage == "return" and blamed is not None:
             self._v("message-blame", dict(base, what="return-stage message blames a parameter", blamed=blamed))
         sw = bool(jaxtyping.config.jaxtyping_remove_typechecker_stack)
